@@ -59,6 +59,7 @@ def run(ctx):
             return
     tab_v(ctx)
     first_wins(ctx)
+    map_independence(ctx)
     refs(ctx)
     sort_keys(ctx)
     lookup(ctx)
@@ -538,3 +539,86 @@ def attr(ctx):
     if n_acc < 2:
         R.violation("ATTR", ATTR + "|accepting-exits", "expected two accepting paths (exact and namespaced match), saw %d" % n_acc, function=ATTR, kind="UNRECOGNISED-SHAPE")
     R.floor("ATTR", 2)
+
+
+def map_independence(ctx):
+    """MAP-IND: a frame is entered in the id-keyed map on every iteration of the frame loop, and in the (context id,
+    application id, frame id)-keyed map on every iteration on which both ids are present — a duplicate in one map does
+    not keep the frame out of the other.  Path rule on the loop that touches both maps: no header-to-latch path avoids
+    the id-keyed map's write site, and none avoids the other map's write site unless it takes a `None` arm of a test on
+    an optional string (the ids)."""
+    from rules.common import place_ty, op_local
+    from rules import lib_loop
+    F, R = ctx.facts, ctx.report
+    n = 0
+    for path, body in fibex_bodies(F):
+        loops = cfg.natural_loops(body)
+        if not loops:
+            continue
+        sc = cfg.succs(body)
+        ddefs = lib_loop.discr_defs(body)
+        for lp in loops:
+            keyed, plain = set(), set()
+            for bi in lp["blocks"]:
+                blk = body["blocks"][bi]
+                if blk["cleanup"]:
+                    continue
+                f = cfg.callee_of(blk["term"])
+                if not f:
+                    continue
+                tgt = cfg.fn_target(f)
+                tys = [F.ty_s(a) for a in (f.get("args") or []) if isinstance(a, int)]
+                if f.get("self_ty") is not None:
+                    tys.append(F.ty_s(f["self_ty"]))
+                if not any("FrameMetadata" in t for t in tys):
+                    continue
+                local_helper = (f.get("resolved") or f["path"]) in F.bodies
+                if not (re.search(r"HashMap::<.*>::(entry|insert|contains_key|get|get_key_value|try_insert)$", tgt) or local_helper):
+                    continue
+                if local_helper and not any("HashMap" in F.ty_s(l["ty"]) for l in F.body(f.get("resolved") or f["path"])["locals"][1:1 + F.body(f.get("resolved") or f["path"])["arg_count"]]):
+                    continue
+                (keyed if any("FrameMetadataIdentification" in t for t in tys) else plain).add(bi)
+            if not keyed or not plain:
+                continue
+            hdr = lp["header"]
+            latches = {a for a, h in lp["back_edges"]}
+            fl, ln = loc_of(body["blocks"][hdr])
+
+            def reach_latch(avoid, drop_none_arms):
+                seen, work = {hdr}, [hdr]
+                while work:
+                    u = work.pop()
+                    if u in latches and u not in avoid:
+                        return True
+                    if u in avoid:
+                        continue
+                    t = body["blocks"][u]["term"]
+                    nxt = [x for x in sc[u] if x in lp["blocks"] and not body["blocks"][x]["cleanup"]]
+                    if drop_none_arms and t["k"] == "switch":
+                        dl = op_local(t["d"])
+                        for pl in ddefs.get(dl, []) if dl is not None else []:
+                            pt = place_ty(F, body, pl)
+                            if pt is not None and F.ty_s(pt).startswith(("std::option::Option<", "core::option::Option<")) and "String" in F.ty_s(pt):
+                                none_t = t["otherwise"]
+                                for v, tg in zip(t["vals"], t["tgts"]):
+                                    if int(v) == 0:
+                                        none_t = tg
+                                nxt = [x for x in nxt if x != none_t]
+                    for x in nxt:
+                        if x not in seen:
+                            seen.add(x)
+                            work.append(x)
+                return False
+
+            n += 1
+            if reach_latch(plain, False):
+                R.violation("MAP-IND", "%s|id-map-skipped" % path, "an iteration of the frame loop can complete without touching the map keyed by the frame id: a frame can be missing from the by-id lookup", function=path, file=fl, line=ln)
+            else:
+                R.obligation("MAP-IND", "%s|id-map-always" % path, "discharged", "every header-to-latch path passes a write site of the id-keyed frame map")
+            if reach_latch(keyed, True):
+                R.violation("MAP-IND", "%s|keyed-map-skipped" % path, "an iteration of the frame loop can complete without touching the map keyed by (context id, application id, frame id) although no test on an optional id took its None arm: a frame whose id is a duplicate in the by-id map (or any other early `continue`) is kept out of the keyed lookup", function=path, file=fl, line=ln)
+            else:
+                R.obligation("MAP-IND", "%s|keyed-map-when-ids-present" % path, "discharged", "every header-to-latch path that takes no None arm of an optional-id test passes a write site of the keyed frame map")
+            R.instance("MAP-IND", "%s: loop at line %s touches both frame maps (%d / %d sites)" % (path, ln, len(plain), len(keyed)))
+    if n == 0:
+        R.notes.append("MAP-IND: no loop touching both frame maps found (not decided)")
